@@ -252,5 +252,6 @@ var LastNodeError = func(n1, n2 *RawNode) bool {
 	if n1.channel.lastErr() != nil && n2.channel.lastErr() == nil {
 		return false
 	}
-	return true
+	// strictly less only if n1 has no error and n2 has one; equal nodes are not less
+	return n1.channel.lastErr() == nil && n2.channel.lastErr() != nil
 }
